@@ -19,6 +19,7 @@ import (
 	"strings"
 	"sync"
 	"sync/atomic"
+	"syscall"
 	"time"
 
 	mcp "trpc.group/trpc-go/trpc-mcp-go"
@@ -214,6 +215,8 @@ type c16CStep struct {
 	Op      string `json:"op"` // init op close
 	Outcome string `json:"outcome,omitempty"`
 	Name    string `json:"name,omitempty"`
+	// KillFirst (stdio, op close): the server process is killed and gone before Close is called
+	KillFirst bool `json:"kill_first,omitempty"`
 }
 
 type c16CObs struct {
@@ -364,6 +367,7 @@ func c16ClientWalk(kind string, steps []c16CStep) (obs []c16CObs, broken string)
 		}
 	}
 	var cl c16Client
+	var stdioCl *mcp.StdioClient
 	var wire func() int
 	var cleanup func()
 	switch kind {
@@ -396,6 +400,7 @@ func c16ClientWalk(kind string, steps []c16CStep) (obs []c16CObs, broken string)
 			return nil, err.Error()
 		}
 		cl = c
+		stdioCl = c
 		cleanup = func() { c.Close(); os.RemoveAll(dir) }
 		wire = func() int {
 			time.Sleep(15 * time.Millisecond) // the child writes the count after reading a line
@@ -419,6 +424,14 @@ func c16ClientWalk(kind string, steps []c16CStep) (obs []c16CObs, broken string)
 		case "init":
 			_, err = cl.Initialize(ctx, &mcp.InitializeRequest{})
 		case "close":
+			if st.KillFirst && stdioCl != nil {
+				if pid := stdioCl.GetProcessID(); pid > 0 {
+					syscall.Kill(pid, syscall.SIGKILL)
+					for dl := time.Now().Add(time.Second); time.Now().Before(dl) && syscall.Kill(pid, 0) == nil && !isZombie(pid); time.Sleep(2 * time.Millisecond) {
+					}
+					time.Sleep(20 * time.Millisecond) // the client's watcher has seen the exit
+				}
+			}
 			err = cl.Close()
 			if err != nil && kind == "stdio" {
 				err = nil // closing pipes of an exited child may report errors; not part of the statement
